@@ -265,7 +265,7 @@ def _gen(args):
     return seed, cfg, trace
 
 
-def explore(tier, seed, model_ok=True, focus=False):
+def explore_module(tier, seed, model_ok=True, focus=False):
     ex = Exploration()
     ex.rule = RULE
     nh, nops = budgets(tier)
@@ -315,7 +315,15 @@ def explore(tier, seed, model_ok=True, focus=False):
     return ex
 
 
-def replay(data):
+def explore(tier, seed, model_ok=True, focus=False):
+    """the boosted module on its own (farm-level facts read from the real farm), then dex/farm as ONE closed model
+    (Model/FarmFull.v): weekly pools never over-subscribed, the guard on remaining(week) never fires"""
+    ex = explore_module(tier, seed, model_ok, focus)
+    from props import farm_full_common as ffc
+    return ffc.merge_exploration(ex, ffc.explore_farm_full("C11", tier, seed, ffc.monitors_for_c11, ffc.nontrivial_all, ffc.RULE, model_ok, focus, scale=0.5))
+
+
+def replay_module(data):
     rp = data["replay"]
     trace = sb.replay_history(rp["cfg"], rp["ops"])
     fails = []
@@ -323,3 +331,10 @@ def replay(data):
         for key, what in monitor(rp["cfg"], op, o):
             fails.append(dict(key=key, what=what))
     return fails
+
+
+def replay(data):
+    if data.get("replay", {}).get("system") == "farm-full":
+        from props import farm_full_common as ffc
+        return ffc.replay_farm_full(data, ffc.monitors_for_c11)
+    return replay_module(data)
